@@ -14,11 +14,12 @@
 (*   clone      (slot, to)                 get_value (slot, n, res)        *)
 (*   build      (src, res [, tree])        precompilation only             *)
 (*   deep       (family, len, res)         a maximal-nesting input: totality*)
+(*   errmsg     (e, text)                  Display of an error value       *)
 (* A trace is accepted iff every event is matched: the POSTCONDITION       *)
 (* compares the number of consumed events with the length of the trace and *)
 (* prints the first unmatched event otherwise.                             *)
 (***************************************************************************)
-EXTENDS Api
+EXTENDS Api, Messages
 Rec == ndJsonDeserialize(IOEnv.TRACE)
 VARIABLES l, ctxs, log
 
@@ -103,6 +104,9 @@ EvGetValue ==
 \* a 4096-character input of maximal nesting went through every stage: totality only
 EvDeep == /\ IsEvent("deep") /\ E.res.p \in {"val", "err"} /\ UNCHANGED <<ctxs, log>>
 
+\* the Display text of an error value (independent of how the error arose)
+EvErrMsg == /\ IsEvent("errmsg") /\ (Modelled(E.e) => ErrorMessage(E.e) = E.text) /\ UNCHANGED <<ctxs, log>>
+
 Simple(name, F(_)) ==
   /\ IsEvent(name)
   /\ SameVars(F(ctxs[E.slot]), E.post)
@@ -131,7 +135,7 @@ EvClone ==
 \* the state after the last matched event is also kept in a TLC register, so that the diagnosis of a rejection can
 \* show what the specification would have allowed
 Track == TLCSet(1, l') /\ TLCSet(2, ctxs')          \* evaluated last: only when every conjunct of the event held
-Next == (EvCtx \/ EvDeep \/ EvBuild \/ EvEval \/ EvSetValue \/ EvGetValue \/ EvClearVariables \/ EvClearFunctions \/ EvClear
+Next == (EvCtx \/ EvDeep \/ EvErrMsg \/ EvBuild \/ EvEval \/ EvSetValue \/ EvGetValue \/ EvClearVariables \/ EvClearFunctions \/ EvClear
         \/ EvSetFunction \/ EvSetBuiltins \/ EvClone) /\ Track
 
 \* reached position (register 1) = number of events + 1  <=>  every event was matched
